@@ -46,7 +46,7 @@ static size_t build_synth_dict(uint8_t* dst, size_t cap, Rng* r, const uint8_t* 
         w = fse_table(op, 200, r, rng_coin(r, 1, 2) ? need : need + (unsigned)rng_below(r, 31 - need), need, 8, 0); if (!w) return 0; op += w; }
     w = fse_table(op, 200, r, 52, 0, 9, rng_coin(r, 1, 2)); if (!w) return 0; op += w;
     w = fse_table(op, 200, r, 35, 0, 9, rng_coin(r, 1, 2)); if (!w) return 0; op += w;
-    for (k = 0; k < 3; k++) { uint32_t rep = clen ? 1 + (uint32_t)rng_below(r, rng_coin(r, 1, 2) ? (clen < 16 ? clen : 16) : clen) : 1; op[0] = (uint8_t)rep; op[1] = (uint8_t)(rep >> 8); op[2] = (uint8_t)(rep >> 16); op[3] = (uint8_t)(rep >> 24); op += 4; }
+    for (k = 0; k < 3; k++) { uint32_t rep = clen ? 1 + (uint32_t)rng_below(r, rng_coin(r, 1, 2) ? (clen < 16 ? clen : 16) : clen) : 1; if (clen && rng_coin(r, 1, 5)) { rep = (uint32_t)clen; sim_probe("c08.rep_equals_content_size"); }   /* edge of the documented range: a recent offset reaching the first content byte */ op[0] = (uint8_t)rep; op[1] = (uint8_t)(rep >> 8); op[2] = (uint8_t)(rep >> 16); op[3] = (uint8_t)(rep >> 24); op += 4; }
     memcpy(op, content, clen); op += clen;
     return (size_t)(op - dst);
 }
@@ -107,6 +107,8 @@ static void exec(const Plan* p) {
         rng_seed(&rs, (uint64_t)plan_get(p, "shape_seed", 1), "synthdict"); if (!id) id = 32768 + (unsigned)rng_below(&rs, 1u << 30);
         n = build_synth_dict(m, s.dict_size + 2000, &rs, s.dict + (s.dict_size - clen), clen, id);
         tc = n ? ZSTD_createCDict(m, n, 3) : NULL; td = n ? ZSTD_createDDict(m, n) : NULL;
+        /* a dictionary the compressor agrees to load and the decoder refuses yields frames nobody can decode (the reverse is harmless: the compression loader is documented as the stricter one) */
+        if (tc && !td) sim_violation("cdict_accepted_ddict_refused", "hand-built dictionary (%zu bytes, content %zu, id %u): ZSTD_createCDict accepts it, ZSTD_createDDict refuses it", n, clen, id);
         if (tc && td && ZSTD_getDictID_fromDict(m, n) == id) { free(s.dict); s.dict = m; s.dict_size = n; sim_probe("c08.synth_dict_accepted"); } else { free(m); sim_probe(n ? "c08.synth_dict_rejected_by_loader" : "c08.synth_dict_not_built"); }
         ZSTD_freeCDict(tc); ZSTD_freeDDict(td);
     }
